@@ -18,6 +18,7 @@ import time
 
 import common
 import c19_lib as L
+import c19_text as T
 
 DRIVER = os.path.join(common.VERIF, "harness", "ocaml", "plan_driver.ml")
 
@@ -1185,9 +1186,13 @@ def run(res):
       "importlab's graph construction is not modelled: deps_output_wf/composed_plan_correct assume wf_graph of "
       "reversed(deps_list()) (dependency nodes earlier, distinct source paths), monitored on every importlab graph built; "
       "the kind (Direct/Local/System) importlab assigns to a file is taken as given",
-      "the shell expansion of $imports/$module in the rule command is outside 'the plan'",
-      "imports_map_loader splits at the first space: a *key* containing a space does not survive the .imports file "
-      "(precondition, counted; keys are importable module paths)",
+      "the reader of the *.imports files, the rule block, ninja's evaluation of the command ($in/$out shell-escaped, "
+      "$imports/$module raw) and the word splitting of /bin/sh are modelled over code points (Plan/Text.v); the shell "
+      "model covers blanks, '...', backslash, $name with field splitting and declines every other special character "
+      "(validated against the real /bin/sh = dash whenever it does not decline); os.path.abspath is a parameter of the "
+      "reader theorem (applied by the real function in the check); file-system encoding (UTF-8, no lone surrogates) is assumed",
+      "keys: the theorems need components without '.', ' ', line breaks; whether importlab can produce such a dependency "
+      "is taken from importlab (monitored: finder_oracle counts lookups outside the hypotheses)",
       "extraction via ExtrOcamlBasic + harness/ocaml/plan_driver.ml; generator/differ/oracle in harness/props/c19*.py"]
   t_start = time.time()
   common.coq_obligations(res, "C19")
@@ -1282,7 +1287,19 @@ def run(res):
     viol += dfig_leg(res, exe, root, common.rng(res.seed, "c19", "dfig"), 1500 if thorough else 200, 40 if thorough else 6)
     res.extra["dfig_leg_wall_s"] = round(time.time() - t1, 1); t1 = time.time()
     report_violations(res, viol, root)
-    res.extra["shrink_report_wall_s"] = round(time.time() - t1, 1)
+    res.extra["shrink_report_wall_s"] = round(time.time() - t1, 1); t1 = time.time()
+    # ---- character level: *.imports reader, rule block / ninja command / shell, module names and keys
+    tr = common.rng(res.seed, "c19", "textx")
+    adv_cases = [c for c in (random_case(tr, 5, adversarial=True) for _ in range(160 if thorough else 28)) if L.wf_case(c)]
+    plain_cases = [c for c in (random_case(tr, 8) for _ in range(200 if thorough else 30)) if L.wf_case(c)]
+    xv, plan_files = T.finder_oracle(res, root, adv_cases + plain_cases)
+    xv += T.reader_leg(res, exe, root, tr, 3000 if thorough else 400, plan_files)
+    res.extra["reader+finder_wall_s"] = round(time.time() - t1, 1); t1 = time.time()
+    xv += T.command_leg(res, exe, root, tr, adv_cases, 2500 if thorough else 250)
+    res.extra["command_leg_wall_s"] = round(time.time() - t1, 1); t1 = time.time()
+    xv += T.names_leg(res, exe, tr, 6000 if thorough else 700)
+    res.extra["names_leg_wall_s"] = round(time.time() - t1, 1)
+    T.report(res, xv)
   finally:
     shutil.rmtree(root, ignore_errors=True)
   if thorough:
@@ -1301,6 +1318,8 @@ def replay(res, path):
   common.bootstrap_pytype()
   L.setup()
   d = json.load(open(path))
+  if d["replay"].get("kind"):
+    return T.replay(res, d)
   c = d["replay"]["case"]
   root = L.scratch_root()
   try:
